@@ -83,16 +83,50 @@ def density_case(ctx, rng, idx):
         y = ybar * (1 + full[0] * rng.normal(size=n))
     else:
         y = ybar + (full[0] + full[1] * ybar) * rng.normal(size=n)
+    form = ['array', 'list', 'int', 'strided'][int(rng.integers(4))]
+    if form == 'int' and n <= 40:
+        # integer-valued data (counts) handed over as int64: the documented
+        # density is the same function of the same numbers
+        ybar = np.maximum(1.0, np.round(ybar * 3 / scale))
+        if cname == 'GaussianErrorModel':
+            ybar = ybar * rng.choice([-1, 1], size=n)
+        int_y = bool(rng.integers(2))
+        if int_y:
+            y = np.round(ybar + rng.integers(-2, 3, size=n))
+            if cname != 'GaussianErrorModel':
+                y = np.maximum(1.0, y)
+        else:
+            # real-valued observations next to integer-typed outputs
+            y = ybar + rng.uniform(-2, 2, size=n)
+            if cname != 'GaussianErrorModel':
+                y = np.maximum(0.3, y)
+        if wrapper == 'bare' and rng.random() < 0.5:
+            full = np.maximum(1.0, np.round(full))
+    elif form == 'int':
+        form = 'array'
     sens = rng.normal(size=(n, width))
     p_free = full[free]
-    form = ['array', 'list'][int(rng.integers(2))]
     if form == 'list':
         a_p, a_ybar, a_y = list(p_free), list(ybar), list(y)
+    elif form == 'int':
+        it = [np.int64, np.int32][int(rng.integers(2))]
+        a_ybar = ybar.astype(it) if (not int_y or rng.random() < 0.7) \
+            else ybar.copy()
+        a_y = y.astype(it) if int_y else y.copy()
+        if rng.random() < 0.3:
+            a_ybar, a_y = a_ybar.tolist(), a_y.tolist()
+        a_p = p_free.astype(np.int64) if np.all(
+            p_free == np.round(p_free)) else p_free.copy()
+    elif form == 'strided':
+        # non-contiguous views into larger buffers
+        a_p = np.repeat(p_free, 2)[::2]
+        a_ybar = np.repeat(ybar, 3)[::3]
+        a_y = np.column_stack([y, -y])[:, 0]
     else:
         a_p, a_ybar, a_y = p_free.copy(), ybar.copy(), y.copy()
         for a in (a_p, a_ybar, a_y):
             a.setflags(write=False)
-    sens_in = sens.copy()
+    sens_in = np.asfortranarray(sens) if form == 'strided' else sens.copy()
     sens_in.setflags(write=False)
 
     nontrivial = n >= 2 and np.ptp(ybar) > 0
